@@ -966,3 +966,69 @@ func writeEntryTables(b *strings.Builder, eps []EntryPoint, pts []PrivTarget, pb
 	}
 	b.WriteString("]\n\n")
 }
+
+// ---------------------------------------------------------------------------------------------
+// appTies: in the gen-1 liquidation sweep and in MsgLiquidateVault the controls (breaker, ESM) are read for ONE app id expression
+// (`appIds[i]` / `appID`); the position that is then liquidated must be tied to THAT expression by a failing comparison
+// `<position>.AppId != <checked app expression>`. A comparison of the position's app with anything else (e.g. the app of its own
+// extended pair) leaves a controlled app's vault open to the other apps' iterations / messages (seed s115).
+
+type AppTie struct {
+	module, fn, checked, lhs, rhs string
+	found, tied                  bool
+	line                         int
+}
+
+var appTieFuncs = [][3]string{{"x/liquidation/keeper", "Keeper", "LiquidateVaults"}, {"x/liquidation/keeper", "msgServer", "MsgLiquidateVault"}}
+
+func extractAppTies() []AppTie {
+	var out []AppTie
+	for _, f := range appTieFuncs {
+		t := AppTie{module: strings.Split(f[0], "/")[1], fn: f[2]}
+		fi := index[FuncKey{f[0], f[1], f[2]}]
+		if fi == nil {
+			out = append(out, t)
+			continue
+		}
+		ast.Inspect(fi.decl.Body, func(n ast.Node) bool {
+			if c, ok := n.(*ast.CallExpr); ok && t.checked == "" {
+				if se, ok := c.Fun.(*ast.SelectorExpr); ok && se.Sel.Name == "GetKillSwitchData" && len(c.Args) == 2 {
+					t.checked = src(c.Args[1])
+				}
+			}
+			return true
+		})
+		ast.Inspect(fi.decl.Body, func(n ast.Node) bool {
+			is, ok := n.(*ast.IfStmt)
+			if !ok || t.found || !blockTerminates(is.Body) {
+				return true
+			}
+			for _, d := range splitOr(is.Cond) {
+				b, ok := d.(*ast.BinaryExpr)
+				if !ok || b.Op != token.NEQ {
+					continue
+				}
+				if se, ok := b.X.(*ast.SelectorExpr); ok && se.Sel.Name == "AppId" {
+					t.found, t.lhs, t.rhs, t.line = true, src(b.X), src(b.Y), line(is)
+					t.tied = t.checked != "" && t.rhs == t.checked
+				}
+			}
+			return true
+		})
+		out = append(out, t)
+	}
+	return out
+}
+
+func writeAppTies(b *strings.Builder, ts []AppTie) {
+	b.WriteString("structure AppTie where\n  module : String\n  fn : String\n  checked : String\n  lhs : String\n  rhs : String\n  found : Bool\n  tied : Bool\n  line : Nat\n  deriving Repr\n\n")
+	b.WriteString("/-- the comparison tying the liquidated position to the app whose controls were checked (gen-1 sweep, MsgLiquidateVault) -/\ndef appTies : List AppTie := [\n")
+	for i, t := range ts {
+		sep := ","
+		if i == len(ts)-1 {
+			sep = ""
+		}
+		fmt.Fprintf(b, "  { module := %s, fn := %s, checked := %s, lhs := %s, rhs := %s, found := %s, tied := %s, line := %d }%s\n", q(t.module), q(t.fn), q(t.checked), q(t.lhs), q(t.rhs), bl(t.found), bl(t.tied), t.line, sep)
+	}
+	b.WriteString("]\n\n")
+}
